@@ -316,7 +316,7 @@ func (c *relCtx) c06(t *expr.Expr, ci, di int, p partsJSON, info map[string]inte
 // unknownKey names the top-level key of the "absent" world that holds the value a configuration uses as
 // unknown value.
 var unknownKey = map[string]string{"unk-str": "u_str", "unk-empty": "u_empty", "unk-int": "u_int", "unk-nil": "u_nil", "unk-list": "u_list",
-	"unk-map": "u_map", "unk-bool": "u_bool", "unk-f64": "u_f64"}
+	"unk-map": "u_map", "unk-bool": "u_bool", "unk-f64": "u_f64", "json-unk": "u_str"}
 
 // c05: what an absent key means. class is how the specification classifies the selector of the tree's root
 // (no unknown value): ok, absent (key absent from a map), nf (absent but not from a map), err.
